@@ -76,6 +76,7 @@ type JWorld struct {
 	Docs      []*JDoc
 	Pools     *Pools
 	openCount int
+	VaryFormats bool // commodity directives draw their display format per version
 	Agg       bool // every version carries the aggregation block
 	DeepTree  bool // a.journal may include b.journal
 }
@@ -96,6 +97,11 @@ func (w *JWorld) GenJText(c *simrt.Chooser, doc *JDoc, v int, includes []string)
 	if c.Pct("decl-com", 20) {
 		cm := pick(c, "decl-com", w.Pools.Commods)
 		f := commodityFmt[cm]
+		if w.VaryFormats {
+			// the display format of a commodity changes between versions: a stale
+			// format cache then shows in formatting answers
+			f = []string{"1,000.00 ", "1.000,00 ", "1 000.00 ", "1000.0000 "}[c.Choose("com-format", 4)] + cm
+		}
 		st := strings.LastIndex(f, cm)
 		lines = append(lines, line("commodity "+f, Occ{Kind: "commodity", Name: cm, Start: 10 + st, End: 10 + st + len(cm), Decl: true}))
 	}
@@ -154,6 +160,8 @@ func NewJWorld(c *simrt.Chooser, workspace bool, flags ...string) *JWorld {
 			w.Agg = true
 		case "deep":
 			w.DeepTree = true
+		case "formats":
+			w.VaryFormats = true
 		}
 	}
 	w.Env.Disk.Env["HOME"] = "/sim"
